@@ -49,9 +49,10 @@ package stack
 //@ func (*Route).IsResolutionRequired props C07
 //@   trusted
 
+// ASSUMED frame: releasing a route (dropping a reference to a network endpoint) changes no TCP object.
 //@ func (*Route).Release props C07
 //@   trusted
-//@   modifies everything()
+//@   modifies modset(NETQUIET)
 
 // C06/C11 at the hand-over from transport to network layer: a UDP datagram is handed down with
 // a length field that equals the bytes it carries (header in hdr, payload in payload); a TCP
@@ -115,7 +116,12 @@ package stack
 //@   modifies ghost(tcpSegs), ghost(lastTCPFlags), ghost(lastTCPSeq), ghost(lastTCPAck), ghost(sentNonFin), ghost(sentFin)
 //@   modifies ghost(icmpSent), ghost(lastICMPType), ghost(lastICMPCode), ghost(lastICMPHdrLen), ghost(lastICMPPayloadArr), ghost(lastICMPPayloadOff), ghost(lastICMPPayloadLen)
 
+// What the stack core may change when called from TCP code: anything except existing TCP
+// sender, receiver, segment and endpoint objects (an endpoint's inbound segment queue may change).
+//@ func modset.NETQUIET
+//@   modifies everything_but("protocol/transport/tcp.sender", "protocol/transport/tcp.receiver", "protocol/transport/tcp.endpoint", "protocol/transport/tcp.segment"), structfamily("protocol/transport/tcp.endpoint", "segmentQueue")
+
 // The effect of handing a packet down (stack.Route.WritePacket), see the assumed frame there.
 //@ func modset.NETSEND
-//@   modifies everything_but("protocol/transport/tcp.sender", "protocol/transport/tcp.receiver", "protocol/transport/tcp.endpoint", "protocol/transport/tcp.segment"), structfamily("protocol/transport/tcp.endpoint", "segmentQueue")
+//@   modifies modset(NETQUIET)
 //@   modifies modset(NETGHOSTS)
